@@ -27,7 +27,7 @@ RULE = ("random-content NP1 / NP2.4 recordings (bin and cbin) with spike trains 
 ASSUMPTIONS = ["spike times are sorted; a spike is identified by (sample, peak channel): a unit may hold two spikes on one sample (double detection)",
                "compressed inputs are always given a scratch_dir (see DESIGN.md section 5 C13 harness note)",
                "neighbourhood = sites within 200 um of the peak site in the reader's (sorted) channel order"]
-REQUIRED = {"extractions": 6, "rows_compared": 300, "row_sets_exactly_once": 3, "orders_executed": 6, "loader_checks": 3, "units_counted": 20}
+REQUIRED = {"extractions": 6, "rows_compared": 300, "row_sets_exactly_once": 3, "orders_executed": 6, "loader_checks": 3, "units_counted": 20, "scratch_histories": 2, "decompress_faults_injected": 1}
 CASE_TIMEOUT = 300.0
 MAX_PROCS = 8
 OFF, LEN = 42, 128
@@ -39,6 +39,7 @@ def gen_cases(seed, tier):
     cases += [{"cls": "loky", "seed": seed * 1000 + 300 + i, "counts": ([1, 3, 8] if tier == "quick" else [1, 2, 3, 4, 5, 6, 7, 8]), "_w": 14} for i in range(2 if tier == "quick" else 10)]
     cases += [{"cls": "params", "seed": seed * 1000 + 600 + i, "_w": 4} for i in range(2 if tier == "quick" else 12)]
     cases += [{"cls": "array", "seed": seed * 1000 + 800 + i, "n": 6, "_w": 1} for i in range(4 if tier == "quick" else 60)]
+    cases += [{"cls": "scratch-history", "seed": seed * 1000 + 900 + i, "_w": 8} for i in range(2 if tier == "quick" else 24)]
     return cases
 
 
@@ -332,6 +333,91 @@ def run_case(case):
                 except Exception as e:
                     res.exception("loky:exception", e, f"{label} workers={nw}")
             res.sig = f"loky-{case['seed']}"
+            res.nontrivial = True
+        elif cls == "scratch-history":
+            # a compressed recording is extracted through a scratch folder that has a HISTORY: (a) an earlier extraction of the same recording died while
+            # decompressing (failpoint on mtscomp's chunk decoder, after some chunks were written), (b) the folder was used before for another
+            # recording with the same file name (other session, other length / gains) that ran to completion.  The extraction that follows is judged
+            # like any other, and equals the one through a fresh scratch folder byte for byte.
+            import mtscomp
+            chunk = int(rng.choice([1000, 3000]))
+            max_wf = int(rng.choice([4, 16]))
+            b, rec, times, clus, chans = make_input(rng, d, chunk, max_wf, ns=int(rng.integers(14000, 24000)))
+            sr0 = spikeglx.Reader(b)
+            sr0.compress_file(keep_original=False, chunk_duration=0.05)
+            sr0.close()
+            b = b.with_suffix(".cbin")
+            nchunks = int(np.ceil(rec.ns / round(0.05 * rec.fs)))
+            mode = ("interrupted", "other-recording")[case["seed"] % 2]
+            scr = d / "scratch"
+            label = f"{rec.kind} cbin ns={rec.ns} ({nchunks} compressed chunks) chunk={chunk} max_wf={max_wf} scratch history={mode}"
+            WE.Parallel = Scheduler
+            Scheduler.order = None
+            kwx = dict(max_wf=max_wf, chunksize_samples=chunk, n_jobs=1, preprocess_steps=[], seed=case["seed"])
+            if mode == "interrupted":
+                kf = int(rng.integers(max(1, nchunks // 3), nchunks))
+                orig_dc = mtscomp.Reader._decompress_chunk
+
+                def dc(self, chunk_idx, _k=kf):
+                    if chunk_idx >= _k:
+                        res.count("decompress_faults_injected")
+                        raise OSError(f"injected failure while decompressing chunk {chunk_idx}")
+                    return orig_dc(self, chunk_idx)
+                mtscomp.Reader._decompress_chunk = dc
+                out0 = d / "out_died"
+                out0.mkdir()
+                try:
+                    WE.extract_wfs_cbin(b, out0, times, clus, chans, scratch_dir=scr, **kwx)
+                    res.violation("scratch-history:fault-swallowed", f"{label}: the extraction returned although decompression failed at chunk {kf}")
+                except OSError:
+                    pass
+                except Exception as e:
+                    res.exception("scratch-history:exception", e, f"{label} (interrupted run)")
+                finally:
+                    mtscomp.Reader._decompress_chunk = orig_dc
+                label += f" (first run died at compressed chunk {kf}; scratch then holds {sorted(p.name for p in scr.iterdir()) if scr.exists() else []})"
+            else:
+                d2 = d / "other"
+                b2, rec2, t2, c2, ch2 = make_input(rng, d2, chunk, max_wf, kind=rec.kind, ns=int(rng.integers(9000, 13000)))
+                sr0 = spikeglx.Reader(b2)
+                sr0.compress_file(keep_original=False)
+                sr0.close()
+                out0 = d / "out_other"
+                out0.mkdir()
+                try:
+                    WE.extract_wfs_cbin(b2.with_suffix(".cbin"), out0, t2, c2, ch2, scratch_dir=scr, **kwx)
+                except Exception as e:
+                    res.exception("scratch-history:exception", e, f"{label} (earlier recording)")
+                label += f" (scratch then holds {sorted(p.name for p in scr.iterdir()) if scr.exists() else []})"
+            outs = []
+            for tag, sdir in (("history", scr), ("fresh", d / "scratch_fresh")):
+                out = d / f"out_{tag}"
+                out.mkdir()
+                try:
+                    WE.extract_wfs_cbin(b, out, times, clus, chans, scratch_dir=sdir, **kwx)
+                    outs.append(out)
+                    res.count("orders_executed")
+                except Exception as e:
+                    res.exception("scratch-history:exception", e, f"{label} ({tag} scratch)")
+            if len(outs) == 2:
+                sr = spikeglx.Reader(b)
+                res.count("extractions")
+                res.count("scratch_histories")
+                r2 = Result()
+                table = judge_output(r2, outs[0], sr, rec, times, clus, chans, max_wf, label)
+                try:
+                    loader_checks(r2, WE, outs[0], table, label)
+                except Exception as e:
+                    r2.exception("loader:exception", e, label)
+                sr.close()
+                for v in r2.violations:
+                    res.violation("scratch-history:" + v["key"], v["msg"])
+                for k, v in r2.observed.items():
+                    res.count(k, v) if not k.startswith(("max:", "min:")) else None
+                ref, cur = file_bytes(outs[1]), file_bytes(outs[0])
+                diff = [k for k in ref if ref[k] != cur[k]]
+                res.check(not diff, "scratch-history:output-depends-on-scratch-history", f"{label}: {diff} differ from the extraction through a fresh scratch folder")
+            res.sig = f"scratch-history-{mode}-{case['seed']}"
             res.nontrivial = True
         elif cls == "params":
             # window given by the caller: from sample-offset to sample-offset+length
